@@ -4,7 +4,9 @@
 //   OP 0 Union (operands use the overlapping state numbers 0..NA-1 / 0..NB-1), 1 UnionDisjointStates (B's state q is NA+q),
 //      2 Intersection (top-down product), 3 IntersectionBU (bottom-up product)
 //   MAPS 1 (default): caller-supplied translation maps are passed and checked; MAPS 0: nullptr (library-internal maps)
-//   PREFILL k > 0 (OP 0 only): the caller's maps already translate state 0 of A / state 0 of B (one bit each) to a number < k
+//   PREFILL k > 0 (OP 0 only): the caller's maps already translate one state of A / one state of B (one bit each whether, the
+//      state itself symbolic) to a symbolic number < k
+//   ALIAS 1 (NA == NB): B is A and the library object b is a copy of a (shares its storage); no separate bits for B
 // Order of the checks: result decodable (1) -> language semantics (20..22, independent macro-state oracle) -> translation
 // maps (2..12) -> exact shape of the result w.r.t. the maps (13) -> operands unchanged (30..33).
 #include <vata/explicit_tree_aut.hh>
@@ -25,6 +27,9 @@ using namespace VATA;
 #endif
 #ifndef PREFILL
 #define PREFILL 0
+#endif
+#ifndef ALIAS
+#define ALIAS 0
 #endif
 enum { NONE = 0xFFFF };
 #if OP <= 1
@@ -66,15 +71,20 @@ static void checkIsectLanguage(const SA& A, const SB& B, const SP& P, const SR& 
 extern "C" void harness(void)
 {
   SA A; A.draw();
+#if ALIAS
+  SB B = A;
+#else
   SB B; B.draw();
+#endif
 #if PREFILL
-  const bool preL = vs_bit(); const unsigned preLv = vs_range(PREFILL);
-  const bool preR = vs_bit(); const unsigned preRv = vs_range(PREFILL);
+  const bool preL = vs_bit(); const unsigned preLs = vs_range(NA), preLv = vs_range(PREFILL);
+  const bool preR = vs_bit(); const unsigned preRs = vs_range(NB), preRv = vs_range(PREFILL);
   // a sensible caller does not ask for two different states to be merged
   vs_assume(!(preL && preR) || preLv != preRv);
 #ifdef KF_EXCLUDE_UNION_PREFILL
-  // known finding C02-1: the fresh numbers of Union (counter restarted at 0) collide with numbers already present in the
-  // caller's maps.  Excluded shape: some map is pre-filled (the rest of the space is still verified).
+  // finding C02-1 (fixed in /repo by 1680988d; macro only defined if the finding is re-opened in known_findings.json): the
+  // fresh numbers of Union (counter restarted at 0) collided with numbers already present in the caller's maps.
+  // Excluded shape: some map is pre-filled (the rest of the space is still verified).
   vs_assume(!(preL || preR));
 #endif
 #endif
@@ -82,6 +92,8 @@ extern "C" void harness(void)
 #if OP == 1
   unsigned shift[NB]; for (unsigned s = 0; s < NB; ++s) shift[s] = NA + s;
   B.build(b, shift);
+#elif ALIAS
+  b = a;                       // copy: shares the transition storage (copy on write)
 #else
   B.build(b);
 #endif
@@ -92,8 +104,8 @@ extern "C" void harness(void)
   SAB AB; U::disjointUnion<NA, NB>(A, B, AB);
   AutBase::StateToStateMap mL, mR;
 #if PREFILL
-  if (preL) mL.insert(std::make_pair((AutBase::StateType)0, (AutBase::StateType)preLv));
-  if (preR) mR.insert(std::make_pair((AutBase::StateType)0, (AutBase::StateType)preRv));
+  if (preL) mL.insert(std::make_pair((AutBase::StateType)preLs, (AutBase::StateType)preLv));
+  if (preR) mR.insert(std::make_pair((AutBase::StateType)preRs, (AutBase::StateType)preRv));
 #endif
 #if MAPS
   ExplicitTreeAut res = ExplicitTreeAut::Union(a, b, &mL, &mR);
@@ -108,12 +120,12 @@ extern "C" void harness(void)
   // the maps translate exactly the states that occur in the operand (+ what the caller had entered), to numbers < NR
   for (unsigned s = 0; s < NA; ++s) { bool pre = false;
 #if PREFILL
-    pre = preL && s == 0; CHECK(!pre || valL[s] == preLv, 4);
+    pre = preL && s == preLs; CHECK(!pre || valL[s] == preLv, 4);
 #endif
     CHECK(hasL[s] == (((usedA >> s) & 1) || pre), 5); CHECK(!hasL[s] || valL[s] < NR, 6); }
   for (unsigned s = 0; s < NB; ++s) { bool pre = false;
 #if PREFILL
-    pre = preR && s == 0; CHECK(!pre || valR[s] == preRv, 7);
+    pre = preR && s == preRs; CHECK(!pre || valR[s] == preRv, 7);
 #endif
     CHECK(hasR[s] == (((usedB >> s) & 1) || pre), 8); CHECK(!hasR[s] || valR[s] < NR, 9); }
   // no two operand states share a result state: the union is disjoint
